@@ -20,6 +20,19 @@ Verdicts:
 * a re-marshalled message that does not parse back to the same attributes       -> Violation "reparse-...:<Class>"
 * model != real on any observable                                              -> correspondence break
 
+When a finding is repaired in /repo (what follows automatically / what to flip in the model):
+* `for ... break ... valid = True` -> `for/else` (forward_for, 13 sites): automatic. translate/wamp_codes.py regenerates
+  `ffFixed_<Class>`; the schema then checks the items in parse (ProtocolError, authid must be str) and the
+  `AssertionError:<Class>.parse:forward_for` keys stop appearing (set their status to "fixed").
+* `$` -> `\Z`, `\d` -> `[0-9]` in the patterns: automatic (patterns are regenerated; `uri_equiv_partial`'s hypotheses
+  become vacuous, the F2 witnesses are guarded by the generated anchor / class).
+* constructor asserts replaced by ProtocolError for a whole class: set `ctorAsserts := false` in that class's schema
+  (lean/Abverif/Model/Messages.lean); the F3 witnesses are guarded by that flag.
+* an option that gets a real id check: change its `oId`/`oListInt` entry to a type with the range check (Model/Schema.lean
+  `OTy.int (some 0)` only bounds below; add the upper bound there) and drop `strict_witness_option_id_range`.
+* anything else the model mirrors by hand (marshal conditions `if self.x:`, PUBLISH's args types, WELCOME's authmethod guard):
+  edit the entry's `mm` / `ty` in Messages.lean; a stale witness theorem fails with "decide proved the proposition false".
+
 Self-test (scratch copy of /repo/src, VERIF_REPO; 2026-09): see SELFTEST at the end of this file.
 """
 import json
